@@ -21,6 +21,46 @@ pub fn check(t: &Trace<'_>, out: &mut CaseOut) -> bool {
             }
         }
     }
+    // the broker's view, from the wire alone: an identifier it saw in a complete PUBLISH (QoS 1/2),
+    // SUBSCRIBE or UNSUBSCRIBE stays taken until the client has read the acknowledgement that
+    // ends that exchange (or a CONNACK without session); a packet that is not a retransmission
+    // must not carry it - whatever the client itself remembers of the first one
+    {
+        use crate::refcodec::SPacket;
+        use crate::world::Ev;
+        let mut open: Vec<(u16, usize)> = Vec::new(); // (identifier, event of the packet that took it)
+        for (ev, e) in t.w.events.iter().enumerate() {
+            match e {
+                Ev::CPkt { conn, idx } => {
+                    let p = &t.w.conns[*conn].out.packets[*idx];
+                    let (pid, retransmission) = match &p.pkt {
+                        CPacket::Publish { qos: 1 | 2, pid: Some(pid), dup, .. } => (*pid, *dup),
+                        CPacket::Subscribe { pid, .. } | CPacket::Unsubscribe { pid, .. } => (*pid, p.b0 & 0x08 != 0),
+                        _ => continue,
+                    };
+                    if !t.conns.iter().find(|c| c.idx == *conn).is_some_and(|c| c.stream_ok) {
+                        continue;
+                    }
+                    match open.iter().find(|(id, _)| *id == pid) {
+                        Some((_, first)) if !retransmission => {
+                            out.violations.push(viol("C07", "C07/collision/identifier-still-open-at-the-broker", format!("conn {} event {}: a new {} carries identifier {}, which the complete packet at event {} took and for which the client has not read a final acknowledgement since", conn, ev, p.pkt.type_name(), pid, first)));
+                            return true;
+                        }
+                        Some(_) => {}
+                        None => open.push((pid, ev)),
+                    }
+                }
+                Ev::Consumed { conn, idx } => match &t.w.conns[*conn].in_pkts[*idx].pkt {
+                    Some(SPacket::ConnAck { sp: false, reason: 0, .. }) => open.clear(),
+                    Some(SPacket::PubAck { pid, .. }) | Some(SPacket::PubComp { pid, .. }) | Some(SPacket::SubAck { pid, .. }) | Some(SPacket::UnsubAck { pid, .. }) => open.retain(|(id, _)| id != pid),
+                    Some(SPacket::PubRec { pid, reason, .. }) if reason.unwrap_or(0) >= 0x80 => open.retain(|(id, _)| id != pid),
+                    _ => {}
+                },
+                _ => {}
+            }
+        }
+        out.count("wire_level_identifier_checks", 1);
+    }
     let mut prev_pid: Option<u16> = None;
     for (i, msg) in m.msgs.iter().enumerate() {
         out.count("allocations_accepted", 1);
